@@ -99,7 +99,14 @@ def gen_case(rng):
     else:
         t_ref, trk = False, "false"
     rv = rvv * ru
-    cls = (n > 1, tkind, str(ru), str(eu), cov, nf_kind, trk, clean, dup)
+    scalar = False
+    if n == 1 and not cov and nf_kind == "none" and rng.random() < 0.5:
+        # bare scalars instead of length-1 arrays
+        scalar = True
+        t_in = t_in[0] if tkind != "float" else float(tt[0])
+        rv = rv[0]
+        err = err[0]
+    cls = (n > 1, tkind, str(ru), str(eu), cov, nf_kind, trk, clean, dup, scalar)
     return dict(t=t_in, rv=rv, rv_err=err, t_ref=t_ref, clean=clean), cls, dict(
         n=n, tkind=tkind, rv_unit=str(ru), err_unit=str(eu), cov=cov, nonfinite=nf_kind, t_ref=trk,
         clean=clean, dup=dup, t_head=np.asarray(tt[:5]), rv_head=rvv[:5])
